@@ -494,6 +494,243 @@ theorem C17_binomial_monomial_valid (minV maxV : Nat) (simple : Bool) (pp lp : R
   refine ⟨_, _, rfl, ?_, by omega⟩
   simp [BinomialProblem.ok, f0, f1, o1]
 
+/-! ### `gen_simplify_multiple_terms` -/
+
+theorem simplifyTemplates_spec (numTerms numLike : Nat) (useNoise : Bool) (pp svp : Rat) (likeVars : List Char)
+    (s : Stream) (h2 : 2 ≤ numTerms) (hl : likeVars.length = numLike) (hn : 1 ≤ numLike) :
+    numTerms ≤ (simplifyTemplates numTerms numLike useNoise pp svp likeVars s).1.length ∧
+    ∀ t ∈ (simplifyTemplates numTerms numLike useNoise pp svp likeVars s).1, TemplOk t := by
+  unfold simplifyTemplates
+  simp only []
+  generalize randBool svp s = SV
+  obtain ⟨shareVar, s1⟩ := SV
+  simp only []
+  -- the shared power
+  have hsp : ∀ (b : Bool), PowOk (if b = true then maybePower 100 s1 else (none, s1)).1 := by
+    intro b; cases b
+    · intro t ht; cases ht
+    · exact maybePower_ok _ _
+  have hspow := hsp shareVar
+  generalize (if shareVar = true then maybePower 100 s1 else ((none : Option (List Char)), s1)) = SP at hspow ⊢
+  obtain ⟨sharedPow, s2⟩ := SP
+  simp only [] at hspow ⊢
+  -- the templates before repetition: non-empty, all well formed
+  have htempl : ∀ (b : Bool),
+      1 ≤ (if b = true then
+            ((likeVars.headD 'a', (none : Option (List Char))) :: (likeVars.headD 'a', sharedPow) :: (adorn pp (likeVars.drop 2) s2).1,
+              (adorn pp (likeVars.drop 2) s2).2)
+          else adorn pp likeVars s2).1.length ∧
+      ∀ t ∈ (if b = true then
+            ((likeVars.headD 'a', (none : Option (List Char))) :: (likeVars.headD 'a', sharedPow) :: (adorn pp (likeVars.drop 2) s2).1,
+              (adorn pp (likeVars.drop 2) s2).2)
+          else adorn pp likeVars s2).1, TemplOk t := by
+    intro b
+    cases b
+    · simp only [Bool.false_eq_true, if_false]
+      exact ⟨by rw [adorn_length]; omega, adorn_ok pp likeVars s2⟩
+    · simp only [if_true]
+      refine ⟨by simp, ?_⟩
+      intro t ht
+      simp only [List.mem_cons] at ht
+      rcases ht with rfl | rfl | ht
+      · intro x hx; cases hx
+      · exact hspow
+      · exact adorn_ok pp _ s2 t ht
+  obtain ⟨hlen, hok⟩ := htempl (shareVar && decide (1 < numLike) && !useNoise)
+  generalize (if (shareVar && decide (1 < numLike) && !useNoise) = true then
+      ((likeVars.headD 'a', (none : Option (List Char))) :: (likeVars.headD 'a', sharedPow) :: (adorn pp (likeVars.drop 2) s2).1,
+        (adorn pp (likeVars.drop 2) s2).2)
+    else adorn pp likeVars s2) = TT at hlen hok ⊢
+  obtain ⟨templates, s3⟩ := TT
+  simp only [] at hlen hok ⊢
+  constructor
+  · rw [List.length_append, List.length_take, List.length_flatten]
+    have : (List.map List.length (List.replicate numTerms templates)).sum = numTerms * templates.length := by
+      simp
+    rw [this]
+    have : numTerms ≤ numTerms * templates.length := Nat.le_mul_of_pos_right _ (by omega)
+    omega
+  · intro t ht
+    rw [List.mem_append] at ht
+    rcases ht with ht | ht
+    · have := List.mem_of_mem_take ht
+      rw [List.mem_flatten] at this
+      obtain ⟨l, hl', htl⟩ := this
+      rw [List.mem_replicate] at hl'
+      exact hok t (hl'.2 ▸ htl)
+    · split at ht
+      · simp only [List.mem_singleton] at ht
+        rw [ht]; exact hspow
+      · cases ht
+
+theorem pool_minus_list (l : List Char) :
+    24 - l.length ≤ (variablesPool.filter (fun v => !(l.contains v))).length := by
+  have hnd : variablesPool.Nodup := by decide
+  have hcount : (variablesPool.filter (fun v => l.contains v)).length ≤ l.length := by
+    have hsub : (variablesPool.filter (fun v => l.contains v)).Nodup := hnd.filter _
+    have hmem : ∀ x ∈ variablesPool.filter (fun v => l.contains v), x ∈ l := by
+      intro x hx; simpa using (List.mem_filter.1 hx).2
+    exact List.Nodup.length_le_of_subset hsub hmem
+  have hsplit := List.length_eq_countP_add_countP (fun v => l.contains v) (l := variablesPool)
+  have h24 : variablesPool.length = 24 := by decide
+  rw [List.countP_eq_length_filter, List.countP_eq_length_filter] at hsplit
+  have hb : ∀ q : Bool, (!q) = decide (¬ q = true) := by intro q; cases q <;> rfl
+  have e : (variablesPool.filter (fun v => !(l.contains v)))
+      = (variablesPool.filter (fun a_1 => decide ¬l.contains a_1 = true)) := by
+    apply List.filter_congr; intro x _; exact hb _
+  rw [e]
+  omega
+
+theorem noiseAround_spec (numTerms nn : Nat) (pp : Rat)
+    (likeVars : List Char) (templates : List Template) (s : Stream)
+    (hlen : numTerms ≤ templates.length) (hok : ∀ t ∈ templates, TemplOk t)
+    (hnn : nn + likeVars.length ≤ 24) :
+    ∃ ts cx s', noiseAround numTerms nn pp likeVars templates s = some ((ts, cx), s') ∧
+      numTerms ≤ ts.length ∧ (∀ t ∈ ts, TemplOk t) ∧ numTerms ≤ cx := by
+  unfold noiseAround
+  obtain ⟨vs, hvs⟩ := getRandVarsS_some nn likeVars s (by omega) (by have := pool_minus_list likeVars; omega)
+  generalize getRandVarsS nn likeVars s = G at hvs ⊢
+  obtain ⟨g, s1⟩ := G
+  simp only [] at hvs
+  subst hvs
+  simp only []
+  have hf := noiseTemplates_ok pp (splitS nn s1).1.1 vs (splitS nn s1).2
+  generalize noiseTemplates pp (splitS nn s1).1.1 vs (splitS nn s1).2 = F at hf ⊢
+  obtain ⟨⟨front, vs'⟩, s2⟩ := F
+  have hb := noiseTemplates_ok pp (splitS nn s1).1.2 vs' s2
+  generalize noiseTemplates pp (splitS nn s1).1.2 vs' s2 = B at hb ⊢
+  obtain ⟨⟨back, vs''⟩, s3⟩ := B
+  simp only [] at hf hb ⊢
+  refine ⟨_, _, _, rfl, ?_, ?_, by omega⟩
+  · simp only [List.length_append, List.length_reverse]; omega
+  · intro t ht
+    simp only [List.mem_append, List.mem_reverse] at ht
+    rcases ht with (ht | ht) | ht
+    · exact hf t ht
+    · exact hok t ht
+    · exact hb t ht
+
+theorem noiseCount_le (numTerms : Nat) (noiseArg : Option Nat) :
+    noiseCount numTerms noiseArg ≤ (match noiseArg with | some n => n | none => 5) := by
+  cases noiseArg with
+  | none => simp only [noiseCount]; omega
+  | some n => exact Nat.le_refl _
+
+theorem simplifyNoise_spec (useNoise : Bool) (numTerms : Nat) (noiseArg : Option Nat) (pp : Rat)
+    (likeVars : List Char) (templates : List Template) (s : Stream)
+    (hlen : numTerms ≤ templates.length) (hok : ∀ t ∈ templates, TemplOk t)
+    (hn : (match noiseArg with | some n => n | none => 5) + likeVars.length ≤ 24) :
+    ∃ ts cx s', simplifyNoise useNoise numTerms noiseArg pp likeVars templates s = some ((ts, cx), s') ∧
+      numTerms ≤ ts.length ∧ (∀ t ∈ ts, TemplOk t) ∧ numTerms ≤ cx := by
+  unfold simplifyNoise
+  cases useNoise with
+  | false => exact ⟨templates, numTerms, s, by simp, hlen, hok, Nat.le_refl _⟩
+  | true =>
+    simp only [if_true]
+    have := noiseCount_le numTerms noiseArg
+    exact noiseAround_spec numTerms _ pp likeVars templates s hlen hok (by omega)
+
+theorem simplifyFinish_spec (useGroup : Bool) (sp : Rat) (spec : OpSpec) (optionalVar : Bool) (ovp : Rat)
+    (templates : List Template) (cx : Nat) (s : Stream)
+    (hlen : 2 ≤ templates.length) (hok : ∀ t ∈ templates, TemplOk t) :
+    ∃ p, simplifyFinish useGroup sp spec optionalVar ovp templates cx s = some (p, cx) ∧ p.ok = true := by
+  unfold simplifyFinish
+  simp only []
+  generalize randBool sp s = SH
+  obtain ⟨doShuffle, s1⟩ := SH
+  simp only []
+  have hsh : ∀ b : Bool, (if b = true then shuffleG templates s1 else (templates, s1)).1.length = templates.length ∧
+      ∀ t ∈ (if b = true then shuffleG templates s1 else (templates, s1)).1, t ∈ templates := by
+    intro b; cases b
+    · exact ⟨rfl, fun t h => h⟩
+    · exact shuffleFromG_spec _ _ _
+  obtain ⟨hl2, hm2⟩ := hsh doShuffle
+  generalize (if doShuffle = true then shuffleG templates s1 else (templates, s1)) = T2 at hl2 hm2 ⊢
+  obtain ⟨ts, s2⟩ := T2
+  simp only [] at hl2 hm2 ⊢
+  have hlen2 : 2 ≤ ts.length := by omega
+  have hok2 : ∀ t ∈ ts, TemplOk t := fun t h => hok t (hm2 t h)
+  -- the group
+  have hgrp : ∀ b : Bool, ∀ gs ge,
+      (if b = true then
+          (some ((randint 0 (max (ts.length / 2) 1 - 1) s2).1,
+              (randint (max (ts.length / 2) 1) (ts.length - 1) (randint 0 (max (ts.length / 2) 1 - 1) s2).2).1),
+            (randint (max (ts.length / 2) 1) (ts.length - 1) (randint 0 (max (ts.length / 2) 1 - 1) s2).2).2)
+        else ((none : Option (Nat × Nat)), s2)).1 = some (gs, ge) → gs < ge ∧ ge + 1 ≤ ts.length := by
+    intro b gs ge h
+    cases b
+    · simp at h
+    · simp only [if_true, Option.some.injEq, Prod.mk.injEq] at h
+      obtain ⟨rfl, rfl⟩ := h
+      have hhalf : max (ts.length / 2) 1 ≤ ts.length - 1 := by omega
+      have h1 := randint_le 0 (max (ts.length / 2) 1 - 1) s2 (by omega)
+      have h2 := randint_ge (max (ts.length / 2) 1) (ts.length - 1) (randint 0 (max (ts.length / 2) 1 - 1) s2).2
+      have h3 := randint_le (max (ts.length / 2) 1) (ts.length - 1) (randint 0 (max (ts.length / 2) 1 - 1) s2).2 hhalf
+      omega
+  have hg := hgrp useGroup
+  generalize (if useGroup = true then
+          (some ((randint 0 (max (ts.length / 2) 1 - 1) s2).1,
+              (randint (max (ts.length / 2) 1) (ts.length - 1) (randint 0 (max (ts.length / 2) 1 - 1) s2).2).1),
+            (randint (max (ts.length / 2) 1) (ts.length - 1) (randint 0 (max (ts.length / 2) 1 - 1) s2).2).2)
+        else ((none : Option (Nat × Nat)), s2)) = GR at hg ⊢
+  obtain ⟨group, s3⟩ := GR
+  simp only [] at hg ⊢
+  cases ts with
+  | nil => simp at hlen2
+  | cons t rest =>
+    obtain ⟨v, pw⟩ := t
+    simp only []
+    have hp : PowOk pw := hok2 (v, pw) (by simp)
+    have hrest : ∀ t ∈ rest, TemplOk t := fun t h => hok2 t (by simp [h])
+    obtain ⟨htl, htok⟩ := simplifyTail_spec spec optionalVar ovp rest (maybeNumber 80 s3).2 hrest
+    refine ⟨_, rfl, ?_⟩
+    have h1 : (PItem.term (maybeNumber 80 s3).1 v pw).ok = true := term_ok _ _ _ (maybeNumber_ok _ _) hp
+    have h2 : (simplifyTail spec optionalVar ovp rest (maybeNumber 80 s3).2).1.all (fun q => q.2.ok) = true := by
+      rw [List.all_eq_true]; exact htok
+    cases group with
+    | none => simp [FlatProblem.ok, h1, h2]
+    | some pr =>
+      obtain ⟨gs, ge⟩ := pr
+      obtain ⟨hlt, hle⟩ := hg gs ge rfl
+      simp only [List.length_cons] at hle
+      simp [FlatProblem.ok, h1, h2, hlt, htl]
+      omega
+
+/-- **C17, `gen_simplify_multiple_terms`** (every stream; `num_terms ≥ 2`, between 1 and 24 like
+variables, noise terms + like variables ≤ 24; any operator source, any probabilities,
+`optional_var` either way): a well-formed problem and a positive complexity. -/
+theorem C17_simplify_valid (numTerms numLike : Nat) (optionalVar : Bool) (spec : OpSpec)
+    (pp ovp np sp svp gp : Rat) (noiseArg : Option Nat) (s : Stream)
+    (h2 : 2 ≤ numTerms) (hl1 : 1 ≤ numLike) (hl2 : numLike ≤ 24)
+    (hn : (match noiseArg with | some n => n | none => 5) + numLike ≤ 24) :
+    ∃ p cx, simplifyMultipleTerms numTerms numLike optionalVar spec pp ovp np sp svp gp noiseArg s = some (p, cx) ∧
+      p.ok = true ∧ 0 < cx := by
+  unfold simplifyMultipleTerms
+  simp only []
+  rw [if_neg (by omega)]
+  generalize hNL : (if numTerms = 2 then 1 else numLike) = NL
+  have hNL1 : 1 ≤ NL := by rw [← hNL]; split <;> omega
+  have hNL2 : NL ≤ numLike := by rw [← hNL]; split <;> omega
+  obtain ⟨likeVars, hlv⟩ := getRandVarsS_some NL [] (randBool np (randBool gp s).2).2 (by omega) (by
+    have : (variablesPool.filter (fun v => !([] : List Char).contains v)).length = 24 := by decide
+    omega)
+  have hlvlen := getRandVarsS_length NL [] _ likeVars hlv
+  generalize getRandVarsS NL [] (randBool np (randBool gp s).2).2 = G at hlv ⊢
+  obtain ⟨g, s1⟩ := G
+  simp only [] at hlv
+  subst hlv
+  simp only []
+  obtain ⟨hA1, hA2⟩ := simplifyTemplates_spec numTerms NL (randBool np (randBool gp s).2).1 pp svp likeVars s1 h2 hlvlen hNL1
+  generalize simplifyTemplates numTerms NL (randBool np (randBool gp s).2).1 pp svp likeVars s1 = A at hA1 hA2 ⊢
+  obtain ⟨templates, s2⟩ := A
+  simp only [] at hA1 hA2 ⊢
+  obtain ⟨ts, cx, s3, hB, hB1, hB2, hB3⟩ := simplifyNoise_spec (randBool np (randBool gp s).2).1 numTerms noiseArg pp
+    likeVars templates s2 hA1 hA2 (by rw [hlvlen]; cases noiseArg <;> simp only [] at hn ⊢ <;> omega)
+  rw [hB]
+  simp only []
+  obtain ⟨p, hC, hpok⟩ := simplifyFinish_spec (randBool gp s).1 sp spec optionalVar ovp ts cx s3 (by omega) hB2
+  exact ⟨p, cx, hC, hpok, by omega⟩
+
 /-- what C17 promises of a generated problem: the text is accepted by the parser, the complexity is
 positive, and the parsed expression has like terms -/
 def ValidProblem (r : Option (FlatProblem × Nat)) : Prop :=
@@ -515,7 +752,11 @@ theorem C17_generators_valid (s : Stream) :
     (∀ minV maxV simple pp lp, minV ≤ maxV → maxV ≤ 4 → ∃ p cx e,
       binomialTimesBinomial minV maxV simple pp lp s = some (p, cx) ∧ 0 < cx ∧ parseToks (p.toks ++ [eofTok]) = .ok e) ∧
     (∀ minV maxV simple pp lp, minV ≤ maxV → maxV ≤ 3 → ∃ p cx e,
-      binomialTimesMonomial minV maxV simple pp lp s = some (p, cx) ∧ 0 < cx ∧ parseToks (p.toks ++ [eofTok]) = .ok e) :=
+      binomialTimesMonomial minV maxV simple pp lp s = some (p, cx) ∧ 0 < cx ∧ parseToks (p.toks ++ [eofTok]) = .ok e) ∧
+    (∀ numTerms numLike optionalVar spec pp ovp np sp svp gp noiseArg, 2 ≤ numTerms → 1 ≤ numLike → numLike ≤ 24 →
+      (match noiseArg with | some n => n | none => 5) + numLike ≤ 24 → ∃ p cx e,
+      simplifyMultipleTerms numTerms numLike optionalVar spec pp ovp np sp svp gp noiseArg s = some (p, cx) ∧
+        0 < cx ∧ parseToks (p.toks ++ [eofTok]) = .ok e) :=
   ⟨fun a b e p h1 h2 => valid_of _ (C17_combine_valid a b e p s h1 h2),
    fun a b c e p h1 h2 h3 h4 => valid_of _ (C17_haystack_valid a b c e p s h1 h2 h3 h4),
    fun n pp h => valid_of _ (C17_blockers_one_valid n pp s h),
@@ -527,6 +768,10 @@ theorem C17_generators_valid (s : Stream) :
    fun a b sv pp lp h1 h2 => by
      obtain ⟨p, cx, hr, hok, hcx⟩ := C17_binomial_monomial_valid a b sv pp lp s h1 h2
      obtain ⟨e, he⟩ := C17_binomial_parses p hok
+     exact ⟨p, cx, e, hr, hcx, he⟩,
+   fun nt nl ov spec pp ovp np sp svp gp na h2 h3 h4 h5 => by
+     obtain ⟨p, cx, hr, hok, hcx⟩ := C17_simplify_valid nt nl ov spec pp ovp np sp svp gp na s h2 h3 h4 h5
+     obtain ⟨e, he⟩ := C17_flat_parses p hok
      exact ⟨p, cx, e, hr, hcx, he⟩⟩
 
 /-! non-vacuity: one concrete stream -/
